@@ -213,6 +213,19 @@ func (g *G[T]) Get(a int) int { return g.n + a + 500 }
 //go:noinline
 func (g *G[T]) Other(a int) int { return g.n - a }
 
+// Wide has a stack-passed value receiver; Many has many arguments: both make the dictionary wrapper long, so the
+// call into the shared shape function lies far from the wrapper's entry.
+type Wide[T any] struct {
+	pad [6]int64
+	v   T
+}
+
+//go:noinline
+func (w Wide[T]) Get(a int) int { return int(w.pad[5]) + a + 600 }
+
+//go:noinline
+func (g *G[T]) Many(a, b, c, d, e, f, h int) int { return g.n + a + b + c + d + e + f + h + 700 }
+
 func TestC06Generics(t *testing.T) {
 	rep := vmon.NewReport("C06")
 	defer rep.Write()
@@ -231,6 +244,13 @@ func TestC06Generics(t *testing.T) {
 		{"G[*GB]", "ptr", gb.Get, gb.Other, func(b *mocker.Builder, v int) { b.Struct(&G[*GB]{}).Method("Get").Return(v) }},
 		{"G[[2]int]", "arr", garr.Get, garr.Other, func(b *mocker.Builder, v int) { b.Struct(&G[[2]int]{}).Method("Get").Return(v) }},
 	}
+	wi, ws := Wide[int]{pad: [6]int64{0, 0, 0, 0, 0, 5}}, Wide[string]{pad: [6]int64{0, 0, 0, 0, 0, 6}}
+	insts = append(insts,
+		inst{"Wide[int].Get", "wide-int", wi.Get, func(a int) int { return gi.Other(a) }, func(b *mocker.Builder, v int) { b.Struct(Wide[int]{}).Method("Get").Return(v) }},
+		inst{"Wide[string].Get", "wide-string", ws.Get, func(a int) int { return gs.Other(a) }, func(b *mocker.Builder, v int) { b.Struct(Wide[string]{}).Method("Get").Return(v) }},
+		inst{"G[int].Many", "many-int", func(a int) int { return gi.Many(a, 1, 2, 3, 4, 5, 6) }, func(a int) int { return gi.Other(a) }, func(b *mocker.Builder, v int) { b.Struct(&G[int]{}).Method("Many").Return(v) }},
+		inst{"G[string].Many", "many-string", func(a int) int { return gs.Many(a, 1, 2, 3, 4, 5, 6) }, func(a int) int { return gs.Other(a) }, func(b *mocker.Builder, v int) { b.Struct(&G[string]{}).Method("Many").Return(v) }},
+	)
 	orig := make([]int, len(insts))
 	oorig := make([]int, len(insts))
 	for i, in := range insts {
